@@ -171,9 +171,14 @@ ilu_ccopy_to_ucol(
 		d_max = 1.0 / d_max; d_min = 1.0 / d_min;
 		tol = 1.0 / (d_max + (d_min - d_max) * quota / m);
 	    } else {
+/* ILU keeps repeated row indices (with explicit zeros), so the
+		   column can hold more than the n entries work[] has room for. */
+		float *sel = work;
+		if ( m > Glu->n ) sel = floatMalloc(m);
                 i_1 = xusub[jcol];
-                for (i = 0; i < m; ++i, ++i_1) work[i] = c_abs1(&ucol[i_1]);
-		tol = sqselect(m, work, quota);
+                for (i = 0; i < m; ++i, ++i_1) sel[i] = c_abs1(&ucol[i_1]);
+		tol = sqselect(m, sel, quota);
+		if ( sel != work ) SUPERLU_FREE(sel);
 #if 0
 		A = &ucol[xusub[jcol]];
 		for (i = 0; i < m; i++) work[i] = i;
